@@ -3,7 +3,7 @@ import itertools
 import numpy as np
 from lib import common as C, models as M
 
-GEN = ['BlockFacts']
+GEN = ['BlockFacts', 'MultiplyBasis']
 TRUSTED = ['the topological sort returns a well-formed evaluation order (C15)', 'JacobianDict compose/update (C14), sparse operator algebra (C03)']
 ASSUMPTIONS = ['the chain-rule theorem is about the abstract forward accumulation; the tie is (a) structural facts extracted from combined_block.py/block.py and '
                '(b) exact correspondence on generated linear contemporaneous models at T=1 (integer coefficients)',
@@ -160,6 +160,47 @@ def check_dag(rng):
     return out, n
 
 
+def check_shift_chains(rng, nmodels):
+    """generated chains/diamonds of linear simple blocks whose terms carry leads and lags of DIFFERENT depths (-3..3): the model Jacobian (products of
+    sparse shift operators) vs the dense chain rule built from the single-block Jacobians on a longer horizon; linear impulse vs J @ shock"""
+    from sequence_jacobian import combine
+    out, n = [], 0
+    T, K = 7, 14
+    specs = []
+    for mi in range(nmodels):
+        nb = rng.randint(2, 4)
+        names = [f'v{k}' for k in range(16)]
+        avail, blocks, nxt = names[:2], [], 2
+        for b in range(nb):
+            ins = rng.sample(avail, rng.randint(1, min(2, len(avail))))
+            if b > 0 and names[nxt - 1] not in ins:
+                ins[0] = names[nxt - 1]                  # keep a chain through the latest output so that shifts compose
+            outs = {}
+            for _ in range(rng.randint(1, 2)):
+                outs[names[nxt]] = {i: (rng.choice([-2, -1, 1, 2, 3]), rng.choice([-3, -2, -1, -1, 0, 1, 1, 2, 3])) for i in ins}
+                nxt += 1
+            blocks.append(dict(name=f'b{b}', ins=ins, outs=outs))
+            avail = avail + list(outs)
+        specs.append(blocks)
+    mod = M.write_linear_models(f'shift_{nmodels}', specs)
+    for mi, blocks in enumerate(specs):
+        n += 1
+        objs = [getattr(mod, f'm{mi}_{b["name"]}') for b in blocks]
+        model = combine(objs, name=f'chain{mi}')
+        ss = model.steady_state({'v0': 1.0, 'v1': 2.0})
+        inputs = ['v0', 'v1']
+        inp = dict(kind='shift-chain', blocks=blocks)
+        ref = M.reference_jacobian(model.blocks, ss, inputs, T + K)
+        J = model.jacobian(ss, inputs, T=T)
+        got = jd(J, T)
+        bad = [(o, i) for (o, i), mat in got.items() if not np.allclose(mat, ref[o][i][:T, :T], atol=1e-9)]
+        bad += [(o, i) for o in ref for i in ref[o] if o not in inputs and (o, i) not in got and np.abs(ref[o][i][:T, :T]).max() > 1e-12]
+        if bad:
+            C.push(out, dict(what='model Jacobian of a chain with leads and lags of different depths differs from the dense chain rule', input=dict(inp, entries=bad[:4]),
+                             signature=dict(op='jacobian-vs-chain-rule', shifts='mixed-depth')))
+    return out, n
+
+
 def check_options():
     """options passed per block vs as keywords, and forwarded to every method (needs a block with options: the KS household)"""
     from sequence_jacobian.examples import krusell_smith as ks
@@ -200,7 +241,8 @@ def check_options():
 
 def oracle(ctx, hints, broken):
     viol, n = [], 0
-    for f in (lambda: check_dag(ctx['rng']), check_options):
+    deep = ctx['tier'] == 'thorough' or bool(broken)
+    for f in (lambda: check_dag(ctx['rng']), lambda: check_shift_chains(ctx['rng'], 80 if deep else 12), check_options):
         try:
             v, k = f()
         except Exception as ex:
@@ -210,11 +252,11 @@ def oracle(ctx, hints, broken):
             C.push(viol, x)
         n += k
     return dict(evaluations=n, violations=viol,
-                rule='5-block forward-looking DAG: Jacobian vs dense chain rule on a T+K window, 14 listing permutations (steady state, Jacobian, linear and nonlinear '
+                rule='generated chains/diamonds of linear simple blocks with leads and lags of different depths (-3..3): model Jacobian vs the dense chain rule of the single-block Jacobians on a longer horizon; 5-block forward-looking DAG: Jacobian vs dense chain rule on a T+K window, 14 listing permutations (steady state, Jacobian, linear and nonlinear '
                      'impulses), input/output subsets, full and partial saved Jacobians, J @ shock vs impulse_linear, sequential evaluation; Krusell-Smith model: '
                      'per-block vs keyword options in jacobian and impulse_linear')
 
 
 def replay(rp):
-    v = check_dag(C.Rng(0))[0] + check_options()[0]
+    v = check_dag(C.Rng(0))[0] + check_shift_chains(C.Rng(0), 40)[0] + check_options()[0]
     return v[0] if v else None
